@@ -5,7 +5,8 @@ import OdfModel.Para.Markup
     replace(pattern)              countMatches     (Σ len(findall(node)))
     replace(pattern, new)         replaceAll       (per node `subn`, text or tail rewritten in place)
     text_at(start, end)           textAt
-  The replacement string is taken literally (no group references).  Core Lean only.
+  The replacement is a literal string (`replaceAll`) or a template of `re.sub` made of literal pieces and references to the
+  whole match (`\g<0>`): `replaceAllT`; references to inner groups are outside the model.  Core Lean only.
 -/
 namespace Odf.Replace
 open Odf.Markup
@@ -22,6 +23,25 @@ def replaceAll (new : List Char) : Toks → List (List (Nat × Nat)) → Toks
   | .txt h s cs :: rest, sp :: sps => .txt h s (subNode cs new 0 sp) :: replaceAll new rest sps
   | .txt h s cs :: rest, [] => .txt h s cs :: replaceAll new rest []
   | t :: rest, sps => t :: replaceAll new rest sps
+
+/-- a replacement template after CPython's `re` has parsed it: literal pieces (escapes already resolved) and references to the
+    whole match (`none`) -/
+abbrev Template := List (Option (List Char))
+
+/-- what the template stands for at one match -/
+def expandT (tpl : Template) (m : List Char) : List Char :=
+  tpl.flatMap (fun piece => match piece with | none => m | some l => l)
+
+/-- `pattern.subn(template, node)`: each match becomes the expansion of the template AT THAT MATCH -/
+def subNodeT (cs : List Char) (tpl : Template) : Nat → List (Nat × Nat) → List Char
+  | pos, [] => cs.drop pos
+  | pos, (a, b) :: more => (cs.take a).drop pos ++ expandT tpl ((cs.take b).drop a) ++ subNodeT cs tpl b more
+
+def replaceAllT (tpl : Template) : Toks → List (List (Nat × Nat)) → Toks
+  | [], _ => []
+  | .txt h s cs :: rest, sp :: sps => .txt h s (subNodeT cs tpl 0 sp) :: replaceAllT tpl rest sps
+  | .txt h s cs :: rest, [] => .txt h s cs :: replaceAllT tpl rest []
+  | t :: rest, sps => t :: replaceAllT tpl rest sps
 
 /-- `text_at(start, end)`: negative start clamps to 0, an end before the start clamps to it -/
 def textAt (own : List Char) (start : Int) (stop : Option Int) : List Char :=
